@@ -644,6 +644,27 @@ Proof.
   rewrite I1, I2, I3, I4. destruct c; auto.
 Qed.
 
+(* the per-key validators keep every single-field condition of [par_ok] *)
+Definition par_keys_ok (p : params) : Prop :=
+  0 < p_sub_delay p /\ 0 < p_sess_delay p /\ 0 < p_node_active p /\ 0 <= p_node_share p <= P18 /\ 0 <= p_prov_share p <= P18.
+Lemma pchange_valid_keys s c : pchange_valid c = true -> par_keys_ok (pars s) -> par_keys_ok (pars (apply_pchange s c)).
+Proof.
+  unfold par_keys_ok. intros Hv Hk. destruct c; simpl in *; unfold pos_i64, share_ok in Hv; try exact Hk;
+    repeat match goal with H : _ && _ = true |- _ => apply andb_true_iff in H as [? ?] end; intuition lia.
+Qed.
+Lemma gov_par_ok cs : forall s,
+  par_ok (pars s) -> forallb pchange_valid cs = true ->
+  p_sess_delay (pars (fold_left apply_pchange cs s)) <= p_sub_delay (pars (fold_left apply_pchange cs s)) ->
+  par_ok (pars (fold_left apply_pchange cs s)).
+Proof.
+  intros s [A B C D E F] Hv Hd.
+  assert (K : par_keys_ok (pars (fold_left apply_pchange cs s))).
+  { assert (K0 : par_keys_ok (pars s)) by (unfold par_keys_ok; auto).
+    clear -Hv K0. revert s K0. induction cs as [|c cs IH]; intros s K0; simpl in *; [exact K0|].
+    apply andb_true_iff in Hv as [H1 H2]. apply IH; [exact H2|]. apply pchange_valid_keys; assumption. }
+  destruct K as (K1 & K2 & K3 & K4 & K5). split; auto.
+Qed.
+
 Theorem life_step s o s' : life_inv s -> wf_op_life s o -> step s o = OOk s' -> life_inv s'.
 Proof.
   intros Hl Hwf H. pose proof (all_idx_step _ _ _ (lf_idx _ Hl) H) as Hall'. split; [exact Hall'| |].
@@ -653,8 +674,8 @@ Proof.
       replace (pars x) with (pars s) by (symmetry; keeps_solve). apply Hl.
     + unfold run_tx in H. destruct (validate_basic m); [|discriminate]. destruct (handle _ m) as [x| |] eqn:Hh; try discriminate.
       injection H as <-. apply handle_keeps in Hh. replace (pars x) with (pars s) by (symmetry; keeps_solve). apply Hl.
-    + injection H as <-. simpl in Hwf. destruct Hwf as [Hp _].
-      rewrite pars_fold_clear. exact Hp.
+    + destruct (forallb pchange_valid cs) eqn:Hgate; [|discriminate]. injection H as <-. simpl in Hwf. destruct (Hwf Hgate) as [Hp _].
+      rewrite pars_fold_clear. apply gov_par_ok; [apply Hl|exact Hgate|exact Hp].
     + destruct (end_block _) as [x| |] eqn:He; try discriminate. injection H as <-. apply end_block_keeps in He.
       simpl. replace (pars x) with (pars s) by (symmetry; keeps_solve). apply Hl.
   - unfold step in H. destruct o.
@@ -663,7 +684,7 @@ Proof.
     + unfold run_tx in H. destruct (validate_basic m) eqn:Hv; [|discriminate]. destruct (handle _ m) as [x| |] eqn:Hh; try discriminate.
       injection H as <-. pose proof (all_idx_clear _ (lf_idx _ Hl)) as Hc.
       eapply link_handle; [apply Hc|apply Hc|apply Hc|apply Hl|apply link_clear; apply Hl|exact Hv|exact Hh].
-    + injection H as <-. simpl in Hwf. destruct Hwf as [_ Hb].
+    + destruct (forallb pchange_valid cs) eqn:Hgate; [|discriminate]. injection H as <-. simpl in Hwf. destruct (Hwf Hgate) as [_ Hb].
       destruct (lf_link _ Hl) as [L]. split.
       assert (F : sessions (fold_left apply_pchange cs (clear_events s)) = sessions s /\ subs (fold_left apply_pchange cs (clear_events s)) = subs s /\
                   allocs (fold_left apply_pchange cs (clear_events s)) = allocs s /\ now (fold_left apply_pchange cs (clear_events s)) = now s /\
